@@ -15,7 +15,7 @@ import os
 from fractions import Fraction
 
 from sa import AnalysisError
-from sa.astutil import dotted, src, stmt_text, params, find_stmts, calls_in, method_name, walk_no_nested, const
+from sa.astutil import dotted, src, stmt_text, params, find_stmts, calls_in, method_name, walk_no_nested, const, deep_resolved
 from sa.algebra import Poly, translate, Unsupported
 from sa.einsum import canon
 
@@ -160,7 +160,8 @@ def einsum_terms(fn_node):
     for c in ast.walk(fn_node):
         if isinstance(c, ast.Call) and src(c.func) == 'einsum' and c.args and isinstance(const(c.args[0]), str):
             fmt = const(c.args[0])
-            ops = [_norm_operand(assigns.get(src(a), src(a))) for a in c.args[1:]]
+            # an operand that is a local bound once is read as what it was bound to: the rule is about the expression, not its name
+            ops = [_norm_operand(assigns.get(src(a), src(deep_resolved(fn_node, a)))) for a in c.args[1:]]
             ins, outp = fmt.split('->')
             ins = ins.split(',')
             if len(ins) != len(ops):
@@ -178,7 +179,8 @@ def einsum_groups(fn_node):
     groups = {}
     for s in ast.walk(fn_node):
         if isinstance(s, ast.Return) and s.value is not None:
-            inside = [(sg, p, tuple(o)) for sg, p, o, c in terms if any(x is c for x in ast.walk(s))]
+            nested = {id(x) for _, _, _, c in terms for a in c.args for x in ast.walk(a)}     # an einsum that is an operand of another one is a factor, not a term
+            inside = [(sg, p, tuple(o)) for sg, p, o, c in terms if any(x is c for x in ast.walk(s)) and id(c) not in nested]
             if inside:
                 groups[s.lineno] = frozenset(inside)
     return groups
@@ -187,10 +189,11 @@ def einsum_groups(fn_node):
 EINSUM_ORACLE = {
     'Inverse': [('-', 'Aij,AjkB,Akl->AilB', ['self', 'd(func)', 'self'])],
     'Determinant': [('+', 'A,Aji,AijB->AB', ['self', 'inverse(self.func)', 'd(func)'])],
-    'Product': [('+', 'Ai,AiB->AB', ['funcs', 'd(func)'])],
+    # the product of all OTHER factors: Product over (func repeated along a new axis, with the diagonal replaced by 1)
+    'Product': [('+', 'Ai,AiB->AB', ['Product(insertaxis(self.func,-2,self.func.shape[-1])+Diagonalize(astype(1,self.func.dtype)-self.func))', 'd(func)'])],
     'Multiply': [('+', 'A,AB->AB', ['func1', 'd(func2)']), ('+', 'A,AB->AB', ['func2', 'd(func1)'])],
-    'Legendre': [('+', 'Ai,ij->Aj', ['self', 'astype(d,self.dtype)']), ('+', 'Ai,AB->AiB', ['dself', 'd(x)'])],
-    'TransformCoords': [('+', 'ij,AjB->AiB', ['linear', 'd(coords)'])],
+    'Legendre': [('+', 'Ai,ij->Aj', ['self', 'astype(d,self.dtype)']), ('+', 'Ai,AB->AiB', ["einsum('Ai,ij->Aj',self,astype(d,self.dtype))", 'd(x)'])],
+    'TransformCoords': [('+', 'ij,AjB->AiB', ['TransformLinear(self.target,self.source,self.index)', 'd(coords)'])],
     'Polyval': [('+', 'ABi,AiD->ABD', ['Polyval(PolyGrad(self.coeffs,self.points_ndim),self.points)', 'd(points)'])],
     'Power': [('+', 'A,A,AB->AB', ['self.power', 'power(self.func,p)', 'd(func)']),
               ('+', 'A,A,AB->AB', ['self.power', 'power(self.func,self.power-astype(1,self.power.dtype))', 'd(func)']),
